@@ -14,6 +14,9 @@ type Op struct {
 	Kind    string `json:"kind"` // add | patch | replace | delete | global | pathdefaults
 	Name    string `json:"name,omitempty"`
 	Payload string `json:"payload,omitempty"` // JSON text sent as request body
+	// Leaf edits are applied in every reached state like all the others, but the states they lead to are
+	// not expanded further (quick tier only; in the thorough tier every edit is a full member of the alphabet).
+	Leaf bool `json:"leaf,omitempty"`
 }
 
 func (o Op) String() string {
@@ -71,13 +74,30 @@ func alphabet(thorough bool) []Op {
 	}
 	if thorough {
 		pathPayloads = append(pathPayloads,
-			`{"rtspUDPSourcePortRange":[10000,10100]}`,                // slice-valued field
-			`{"maxReaders":2,"recordPath":"bad"}`,                     // valid and invalid field in one request
+			`{"rtspUDPSourcePortRange":[10000,10100]}`,                            // slice-valued field
+			`{"maxReaders":2,"recordPath":"bad"}`,                                 // valid and invalid field in one request
 			`{"alwaysAvailable":true,"alwaysAvailableTracks":[{"codec":"H264"}]}`, // nested value; invalid on a regexp path only
-			`{"source":"rtsp://127.0.0.1:9/x"}`,                           // completes an earlier {"sourceOnDemand":true}
+			`{"source":"rtsp://127.0.0.1:9/x"}`,                                   // completes an earlier {"sourceOnDemand":true}
 		)
 		globalPayloads = append(globalPayloads, `{"writeQueueSize":1024}`, `{"writeQueueSize":1000}`)
 		defaultsPayloads = append(defaultsPayloads, `{"record":true}`)
+	}
+	// Fields that are PRESENT in the request with the zero value of their type (0, false, empty list): "changes
+	// exactly the fields present" makes them overwrite like any other value, while a merge that decides presence
+	// by looking at the value (nil/zero/empty = absent) drops them. The lists are chosen so that the value they
+	// must replace is non-empty in the base configuration already (rtspUDPSourcePortRange defaults to
+	// [32768, 60999], apiAllowOrigins to ["*"]); maxReaders is 1 in the base path.
+	zeroPath := []string{`{"maxReaders":0,"record":false,"rtspUDPSourcePortRange":[]}`}
+	zeroGlobal := []string{`{"udpMaxPayloadSize":0,"apiAllowOrigins":[]}`}
+	zeroDefaults := []string{`{"maxReaders":0,"rtspUDPSourcePortRange":[]}`}
+	if thorough {
+		zeroPath = []string{
+			`{"rtspUDPSourcePortRange":[]}`, // list of scalars: replaces [10000,10100] or the default
+			`{"maxReaders":0,"record":false}`,
+			`{"alwaysAvailableTracks":[]}`, // list of structures: invalid on top of {"alwaysAvailable":true}
+		}
+		zeroGlobal = []string{`{"apiAllowOrigins":[]}`, `{"apiAllowOrigins":["https://a.example"]}`, `{"udpMaxPayloadSize":0}`}
+		zeroDefaults = []string{`{"rtspUDPSourcePortRange":[]}`, `{"maxReaders":0}`}
 	}
 	var ops []Op
 	for _, k := range []string{"add", "patch", "replace"} {
@@ -108,6 +128,25 @@ func alphabet(thorough bool) []Op {
 	}
 	for _, p := range defaultsPayloads {
 		ops = append(ops, Op{Kind: "pathdefaults", Payload: p})
+	}
+	// the zero-valued edits come last (the indices of the other edits do not depend on them); in the quick tier they
+	// are leaves and are sent to the two plain names only
+	leaf := !thorough
+	for _, k := range []string{"add", "patch", "replace"} {
+		for _, n := range pathNames {
+			if !thorough && n != "p1" && n != "p2" {
+				continue
+			}
+			for _, p := range zeroPath {
+				ops = append(ops, Op{Kind: k, Name: n, Payload: p, Leaf: leaf})
+			}
+		}
+	}
+	for _, p := range zeroGlobal {
+		ops = append(ops, Op{Kind: "global", Payload: p, Leaf: leaf})
+	}
+	for _, p := range zeroDefaults {
+		ops = append(ops, Op{Kind: "pathdefaults", Payload: p, Leaf: leaf})
 	}
 	return ops
 }
